@@ -1,10 +1,10 @@
 \* simulation, small widths, all call kinds, handles re-used freely
 CONSTANTS
   Widths = {1, 2, 3, 4}
-  MaxSteps = 5
+  MaxSteps = 6
   MaxW = 16
   FreshOnly = FALSE
-  Ops = {"bin", "un", "slice", "compose", "cond", "ext", "simplify", "pickle", "mapw", "subst"}
+  Ops = {"bin", "un", "slice", "compose", "cond", "ext", "simplify", "pickle", "mapw", "subst", "setsf", "mset", "mget"}
   Rand = TRUE
 INIT Init
 NEXT Next
